@@ -11,8 +11,14 @@ from harness.common import SEC, World, mem_places, place_names, run_async
 from harness.steps import process_step
 
 EAGER = ["ack", "nack", "reject", "reschedule", "retry", "force_retry"]
-EXTRAS = ["plain", "set_result", "set_exception", "callback", "raising_callback"]
-BEHAVIOURS = ["return", "raise", "sleep_vs_timeout", "bad_payload", "failing_dependency", "bad_return", "raise_unprintable"] + ["eager_" + e for e in EAGER]
+EXTRAS = ["plain", "set_result", "set_exception", "callback", "raising_callback", "raising_partial_callback"]
+BEHAVIOURS = (["return", "raise", "sleep_vs_timeout", "bad_payload", "failing_dependency", "bad_return", "raise_unprintable"] +
+              ["eager_" + e for e in EAGER] + ["eager_reject_on_timeout"])
+
+
+def _action(beh):
+    """The message-API call an eager behaviour makes."""
+    return "reject" if beh == "eager_reject_on_timeout" else beh[len("eager_"):]
 
 
 def h02_ladder(S):
@@ -135,7 +141,7 @@ def h02_worker(S, eager_extras=False, backend="mem", tasks_limit=2):
             async def first(i: int, dep: Annotated[int, Depends(failing_provider)]):
                 runs["m1"] += 1
         elif beh.startswith("eager_"):
-            action = beh[len("eager_"):]
+            action = _action(beh)
 
             @r.actor(name="first", converter=conv, retry_policy=policy)
             async def first(i: int, m: MessageDependency):
@@ -153,6 +159,18 @@ def h02_worker(S, eager_extras=False, backend="mem", tasks_limit=2):
                         cb_log.append("bad")
                         raise RuntimeError("callback failed")
                     m.add_callback(bad)
+                elif extra == "raising_partial_callback":
+                    import functools
+
+                    async def abad(tag):
+                        cb_log.append(tag)
+                        raise RuntimeError("callback failed")
+                    m.add_callback(functools.partial(abad, "bad"))     # a callable without __name__
+                if beh == "eager_reject_on_timeout":
+                    try:
+                        await asyncio.sleep(2)                         # the execution timeout is 1 s
+                    except asyncio.CancelledError:
+                        await m.reject()                               # the actor answers while it is being cancelled
                 await getattr(m, action)()
                 cb_log.append("after-eager")   # must never run
         elif beh == "raise_unprintable":
@@ -211,7 +229,7 @@ def h02_worker(S, eager_extras=False, backend="mem", tasks_limit=2):
         # the worker stops after the expected number of deliveries: the two messages, plus one when message 1 is
         # handed back for immediate delivery (eager reject; eager reschedule of a one-shot job)
         refused = (beh == "eager_retry" and not bool(k < N)) or (extra in ("set_result", "set_exception") and not with_result)
-        back = beh.startswith("eager_") and not refused and (beh == "eager_reject" or (beh == "eager_reschedule" and not recurring))
+        back = beh.startswith("eager_") and not refused and (_action(beh) == "reject" or (beh == "eager_reschedule" and not recurring))
         worker = Worker(routers=[r], handle_signals=[], _connection=w.conn, graceful_shutdown_time=5.0,
                         messages_limit=3 if back else 2, tasks_limit=tasks_limit)
         out["alive_before_stop"] = True
@@ -268,7 +286,7 @@ def h02_worker(S, eager_extras=False, backend="mem", tasks_limit=2):
     elif beh in ("bad_return", "raise_unprintable"):
         want, invoked = ladder(True), 1
     else:
-        action = beh[len("eager_"):]
+        action = _action(beh)
         invoked = 1
         if action == "retry" and not bool(k < N):
             want = ladder(True)       # refused inside the actor -> ValueError -> ordinary failure
@@ -280,7 +298,7 @@ def h02_worker(S, eager_extras=False, backend="mem", tasks_limit=2):
                     "retry": "requeue", "force_retry": "requeue"}[action]
     # a message that was handed back for immediate delivery (eager reject; eager reschedule of a one-shot job) is
     # delivered once more within the run; that second delivery behaves and gets its own single disposition
-    handed_back = eager_done and (beh == "eager_reject" or (beh == "eager_reschedule" and not recurring))
+    handed_back = eager_done and (_action(beh) == "reject" or (beh == "eager_reschedule" and not recurring))
     deliveries = 2 if handed_back else 1
     S.check("actor-invocations", runs["m1"] == (invoked if deliveries == 1 else 2), info=f"runs={runs['m1']} expected={invoked} deliveries={deliveries}")
     S.check("exactly-one-disposition", len(ops1) == deliveries, info=f"{beh}/{extra}: {ops1} task errors: {out['task_errors']}")
